@@ -100,8 +100,8 @@ def environments_verbatim(r, repo: Repo) -> None:
     r.floor(3, "jinja2 Environment constructions", got=n_env)
 
 
-def rule_pipeline(ck: Check, repo: Repo, folder: Folder) -> None:
-    r = ck.rule("R2", "field pipeline: ReuseInfo set fields = extractor output = render arguments ⊆ default template variables; tags agree")
+def rule_pipeline(ck: Check, repo: Repo, folder: Folder, rid: str = "R2") -> None:
+    r = ck.rule(rid, "field pipeline: ReuseInfo set fields = extractor output = render arguments ⊆ default template variables; tags agree")
     fields = set_fields(repo)
     r.floor(3, "set-typed fields of ReuseInfo", got=len(fields))
     r.instance("fields", {"set_fields": fields})
@@ -423,6 +423,28 @@ def rule_writer_refusal(ck: Check, repo: Repo, rid: str = "R8") -> None:
     q = "reuse.comment.CommentStyle._create_comment_multi"
     fn = repo.func(q)
     ck.analysed_fn(q)
+    # what the refusal looks for is MULTI_LINE.end AS A STRING: the table entry must be the language's terminator itself.
+    # Blanks belong in INDENT_BEFORE_END / INDENT_BEFORE_MIDDLE; a terminator declared as ' */' makes the test miss `x*/y`
+    from ..fold import Folder as _F, Record as _R
+    _folder = _F(repo)
+    _names = _folder.known("reuse.comment", "NAME_STYLE_MAP")
+    n_seg = 0
+    for short, cls in (_names.items() if isinstance(_names, dict) else []):
+        ml = _folder.class_table(cls).get("MULTI_LINE")
+        if not isinstance(ml, _R):
+            continue
+        for part in ("start", "end"):   # the middle marker may be pure indentation (Velocity: two blanks)
+            v = ml.get(part)
+            if isinstance(v, str) and v.strip():
+                n_seg += 1
+                if v != v.strip():
+                    r.violation(cls.qual, f"MULTI_LINE.{part} of style {short} is {v!r} (with surrounding blanks)",
+                                f"the premature-terminator test is `MULTI_LINE.end in text`: with {v!r} a text containing the bare delimiter"
+                                f" `{v.strip()}` (`--copyright \"ACME{v.strip()}Corp\"`) is not refused and the written comment ends inside the"
+                                f" notice; the reader's end pattern is built from the same entry", "src/reuse/comment.py")
+    r.instance("terminator-table", {"segments_checked": n_seg})
+    if n_seg < 16:
+        raise AnalysisError(f"style tables: only {n_seg} multi-line delimiters folded")
 
     class H(Hooks):
         def atom(self, text, node, it):
